@@ -41,7 +41,7 @@ META = {
                    "positive scaler, every per-node rescale decision) for all topologies up to the stated bound; the sticky flag "
                    "is a heap/AST argument; the guard clause is a single IEEE comparison decided by z3 and replayed on the real "
                    "code. Accumulated rounding error of either path (the 1e-8 clause beyond underflow) is floating point and not decided.",
-    "bound": "topologies T<=4 quick / T<=5 thorough, S=2, K<=2, N<=2; guard: unbounded (one comparison)",
+    "bound": "enumerated topologies: all T<=4 quick / all T<=5 + 21 of 945 T=6 thorough, S=2, K<=2, N<=2; loop cuts: unbounded in taxa, shapes S<=4,K<=3,N<=2; guard: unbounded (one comparison)",
     "trusted_base": [
         "torch.max contract: returns (values, indices) with values > 0 when all entries are > 0 (the identity is proved for every positive scaler)",
         "real arithmetic for the equivalence; IEEE-754 double semantics of log(0) = -inf and of the sub-normal range for the guard",
@@ -591,10 +591,12 @@ def obligations(tier, seed):
     def add(name, args, clause, **kw):
         obs.append(scenario_ob("C03", name, "V", "scn_rescaled", args, clause=clause, funcs=FUNCS, seed=seed, **kw))
 
-    for T in ((3, 4) if tier == "quick" else (3, 4, 5)):
+    for T in ((3, 4) if tier == "quick" else (3, 4, 5, 6)):
         for k, ts in enumerate(_tree_strs(T)):
-            if T == 5 and k % 5:
+            if T == 5 and k % 5 and tier == "quick":
                 continue
+            if T == 6 and k % 45:
+                continue   # 21 of the 945 six-taxon topologies (the loop-cut obligations below are unbounded in the number of taxa)
             ts = repr(trees.shuffle_children(ast.literal_eval(ts), rng)).replace(" ", "")
             add("C03.equiv.rescaled[tree=%s,S=2,K=2,N=2]" % ts, ("partials", ts, 2, 2, (), 2), "rescaled ≡ plain (tip partials)")
             if T <= 4:
@@ -605,10 +607,12 @@ def obligations(tier, seed):
                 add("C03.equiv.states_rescaled[tree=%s,S=2,K=2]" % ts, ("states", ts, 2, 2, (), cols), "rescaled ≡ plain (tip states)")
             if k % 4 == 0:
                 add("C03.equiv.rescaled[tree=%s,S=2,K=1,batch=(2,)]" % ts, ("partials", ts, 2, 1, (2,), 1), "rescaled ≡ plain (batched)")
+    cut_shapes = [(2, 2, 2)] if tier == "quick" else [(2, 2, 2), (4, 1, 1), (3, 2, 1), (2, 3, 2)]
     for variant in ("partials", "states"):
         for lk in ("tip", "internal"):
             for rk in ("tip", "internal"):
-                obs.append(scenario_ob("C03", "C03.equiv.cut.%s[left=%s,right=%s]" % (variant, lk, rk), "U", "scn_rescaled_cut", (variant, lk, rk, 2, 2, 2),
+              for (S_, K_, N_) in cut_shapes:
+                obs.append(scenario_ob("C03", "C03.equiv.cut.%s[left=%s,right=%s%s]" % (variant, lk, rk, "" if (S_, K_, N_) == (2, 2, 2) else ",S=%d,K=%d,N=%d" % (S_, K_, N_)), "U", "scn_rescaled_cut", (variant, lk, rk, S_, K_, N_),
                                        clause="generic iteration of the rescaled pruning loop keeps plain = rescaled x scalers; suffix adds the log scalers (unbounded in taxa)",
                                        funcs=FUNCS, seed=seed))
     for lk in ("tip", "plain", "rescaled"):
